@@ -29,7 +29,7 @@ CASE_TIMEOUT = 60
 K_CHECKS = 3
 
 OPS = ['incr', 'decr', 'setnp', 'restart', 'reload', 'reloadseq', 'reloadterm', 'extkill',
-       'selfexit', 'check', 'advance', 'dieat', 'dieat']
+       'selfexit', 'check', 'advance', 'dieat', 'dieat', 'kill', 'killpid']
 
 
 def gen_spec(rnd, boundary=None):
@@ -66,6 +66,10 @@ def gen_spec(rnd, boundary=None):
             steps.append(['req', 'reload', {'name': name, 'sequential': True, 'waiting': wait}])
         elif k == 'reloadterm':
             steps.append(['req', 'reload', {'name': name, 'graceful': False, 'waiting': wait}])
+        elif k == 'kill':
+            steps.append(['req', 'kill', {'name': name, 'waiting': wait}])
+        elif k == 'killpid':
+            steps.append(['killpid', name, rnd.randint(0, 3)])
         elif k == 'extkill':
             steps.append(['extkill', name, rnd.randint(0, 3), 9])
         elif k == 'selfexit':
@@ -88,6 +92,7 @@ def plan(tier, seed):
     # systematic: for base histories, inject a death at every kernel-call boundary of the last request
     nb = 150 if tier == 'quick' else 3000
     out += [{'kind': 'sweep', 'seed': seed, 'idx': i} for i in range(nb)]
+    out += [{'kind': 'singleton-reloadconfig', 'seed': seed, 'idx': i} for i in range(8 if tier == 'quick' else 100)]
     return out
 
 
@@ -109,8 +114,53 @@ def materialise(spec):
     return [h]
 
 
+def singleton_reloadconfig(spec, res):
+    """'at most one for a singleton' also when numprocesses comes from an edited configuration file"""
+    import os
+    import shutil
+    import tempfile
+    rnd = rng_for(spec['seed'], 'C01-single', spec['idx'])
+    d = tempfile.mkdtemp(prefix='verif-c01-')
+    path = os.path.join(d, 'c.ini')
+
+    def write(n):
+        with open(path, 'w') as f:
+            f.write('[circus]\ncheck_delay = -1\nendpoint = ipc:///sim/ctrl\npubsub_endpoint = ipc:///sim/pub\n\n'
+                    '[watcher:s]\ncmd = w_s\nsingleton = true\nnumprocesses = %d\ngraceful_timeout = 0.1\n' % n)
+    write(1)
+    w = simhist.new_world({})
+    try:
+        @gen.coroutine
+        def go():
+            arb = w.load_arbiter(path)
+            yield arb.start()
+            yield w.settle(30)
+            write(rnd.choice([2, 3, 5]))
+            rep = yield w.call('reloadconfig', waiting=True)
+            yield w.settle(30)
+            for _ in range(3):
+                yield w.advance(1.0)
+                yield w.check()
+                yield w.settle(30)
+            live = w.kernel.live('w_s')
+            target = simhist.reported_numprocesses(w, 's')
+            res.obs['singleton_reloadconfig_cases'] += 1
+            if len(live) > 1 or (target is not None and target > 1):
+                res.violation('C01/range', 'singleton watcher runs %d workers (numprocesses=%s) after the file was edited and '
+                              'reloadconfig answered %s' % (len(live), target, (rep or {}).get('status')))
+            res.nontrivial(repr(('singleton-reloadconfig', len(live), (rep or {}).get('status'))))
+        w.run(go)
+    finally:
+        w.close()
+        shutil.rmtree(d, ignore_errors=True)
+    res.sample = {'case': 'singleton watcher, numprocesses edited to >1 in the file, reloadconfig'}
+
+
 def run_case(spec):
     res = CaseResult()
+    if spec.get('kind') == 'singleton-reloadconfig':
+        singleton_reloadconfig(spec, res)
+        return res
     for h in materialise(spec):
         if '_sweep_op' in h:
             op = h.pop('_sweep_op')
@@ -276,7 +326,11 @@ def _run(r, steps, before, after):
         if w.stalled is not None:
             break
         before(i, st)
-        if st[0] != 'mark':
+        if st[0] == 'killpid':
+            pid = simhist.pick(w, st[1], st[2])
+            if pid is not None:
+                w.req('kill', name=st[1], pid=pid)
+        elif st[0] != 'mark':
             yield r.do(i, st)
         after(i, st)
 
